@@ -48,7 +48,9 @@ func LoadTable(path string) *SpecTable {
 var genOps = []string{"+", "-", "*", "/", "=", ":=", "==", "!=", "<", "<-", "...", "&", "&&", "!", ".", ",", ";", ":", "{", "}", "(", ")", "[", "]", "|", "~", "++"}
 var genLits = []string{"1", "0", "42", "\"s\"", "\"a b\"", "2.5", "true", "\"line\\n\\n\\nbreaks\"", "\"tab\\t \""}
 var genRawOps = []string{"`raw\n\n\nstring`", "`a\n\n\n\nb`"}
-var genIds = []string{"a", "b", "x", "f", "T", "err", "int", "string", "_"}
+// (identifiers and raw tokens: among them texts that the formatter itself rewrites - number literals with upper-case
+// prefixes and exponents, digit separators - when they are written as plain tokens)
+var genIds = []string{"a", "b", "x", "f", "T", "err", "int", "string", "_", "0XFF", "1E6", "0B101", "0O17", "0x1P-2", "1_000", "0X_FF", "1i", "0Xabc"}
 var genPaths = []string{"fmt", "x/d", "y/d", "loc/al", "dot/p", "os", "C", "z/go"}
 var genComments = []string{"note", "a } b", "two\nlines", "ends\n", "x := 1", "see http://x//y", "blank\n\n\nlines inside", "  indented\n\n\n\n  more", "tab\tand trailing space "}
 
